@@ -229,7 +229,7 @@ func textREMatch(args ...tengo.Object) (ret tengo.Object, err error) {
 
 	matched, err := regexp.MatchString(s1, s2)
 	if err != nil {
-		ret = wrapError(err)
+		ret, err = wrapError(err), nil
 		return
 	}
 
@@ -261,7 +261,7 @@ func textREFind(args ...tengo.Object) (ret tengo.Object, err error) {
 
 	re, err := regexp.Compile(s1)
 	if err != nil {
-		ret = wrapError(err)
+		ret, err = wrapError(err), nil
 		return
 	}
 
@@ -374,7 +374,7 @@ func textREReplace(args ...tengo.Object) (ret tengo.Object, err error) {
 
 	re, err := regexp.Compile(s1)
 	if err != nil {
-		ret = wrapError(err)
+		ret, err = wrapError(err), nil
 	} else {
 		s, ok := doTextRegexpReplace(re, s2, s3)
 		if !ok {
@@ -429,7 +429,7 @@ func textRESplit(args ...tengo.Object) (ret tengo.Object, err error) {
 
 	re, err := regexp.Compile(s1)
 	if err != nil {
-		ret = wrapError(err)
+		ret, err = wrapError(err), nil
 		return
 	}
 
@@ -461,7 +461,7 @@ func textRECompile(args ...tengo.Object) (ret tengo.Object, err error) {
 
 	re, err := regexp.Compile(s1)
 	if err != nil {
-		ret = wrapError(err)
+		ret, err = wrapError(err), nil
 	} else {
 		ret = makeTextRegexp(re)
 	}
@@ -929,7 +929,7 @@ func textParseBool(args ...tengo.Object) (ret tengo.Object, err error) {
 
 	parsed, err := strconv.ParseBool(s1.Value)
 	if err != nil {
-		ret = wrapError(err)
+		ret, err = wrapError(err), nil
 		return
 	}
 
@@ -970,7 +970,7 @@ func textParseFloat(args ...tengo.Object) (ret tengo.Object, err error) {
 
 	parsed, err := strconv.ParseFloat(s1.Value, i2)
 	if err != nil {
-		ret = wrapError(err)
+		ret, err = wrapError(err), nil
 		return
 	}
 
@@ -1017,7 +1017,7 @@ func textParseInt(args ...tengo.Object) (ret tengo.Object, err error) {
 
 	parsed, err := strconv.ParseInt(s1.Value, i2, i3)
 	if err != nil {
-		ret = wrapError(err)
+		ret, err = wrapError(err), nil
 		return
 	}
 
